@@ -3,7 +3,7 @@
    Models: Bac.Bip (bvllservice.BIPSimple/BIPForeign/BIPBBMD), Bac.IpNet (vlan.IPNetwork/IPRouter,
    multiplexer, timers).  `bbmd_run b es` is the BBMD after ANY history es of arriving frames,
    own broadcasts and 1 s ticks. *)
-From Bac Require Import Base Bip BipFacts IpNet IpNetFacts.
+From Bac Require Import Base Bip BipFacts IpNet IpNetFacts BipDeliv BipDelivFacts BipDelivTie.
 Open Scope N_scope.
 
 (* one table entry per address, under any history *)
@@ -109,15 +109,73 @@ Theorem C13_foreign_accepts_from_bbmd : forall now f s d o p b,
 Proof. exact foreign_accepts_from_bbmd. Qed.
 Print Assumptions C13_foreign_accepts_from_bbmd.
 
-(* C13_broadcast_once, PARTIAL: proved for the completely swept family of 774 well-formed
+(* ---------------------------------------------------------------------------------------------
+   C13_broadcast_once for configurations of ARBITRARY size.
+   `acfg` (BipDeliv.v) = any list of subnets (BBMD, the mask its peers list it with — /32 "two-hop"
+   or the subnet mask "one-hop", chosen per peer —, its broadcast address, any list of ordinary
+   nodes), any list of foreign devices each registered with one of the BBMDs, and `a_keep` = which
+   BBMD lists which (full c := everybody lists everybody, itself included).  `wf c`: node
+   addresses pairwise different, broadcast addresses pairwise different and different from node
+   addresses, every device's BBMD exists, every entry's forwarding address is the peer itself or
+   the peer's subnet broadcast (decidable: C13_wf_decidable).
+   `broadcast n c o p` = the deliveries caused by node o broadcasting p, computed with Bip.v's
+   step functions (simple_/bbmd_/foreign_confirmation, *_indication — the functions tied to the
+   code by the node-* correspondence) along the delivery tree, to depth 4+n for any n.
+   PROVED FOR ALL SIZES (induction over the lists): every delivery is a broadcast showing the
+   originator; no address receives two copies; the originator receives none; with full tables
+   every other node receives one.
+   NOT PROVED FOR ALL SIZES: that the delivery-tree semantics coincides with the FIFO cascade of
+   IpNet.v (IP masks, router, queue).  That link is (a) proved on the completely swept family of
+   774 configurations and every origin (C13_deliv_matches_cascade, C13_family_wf), and (b) checked
+   on every run against the IMPLEMENTATION directly by the deliv-* correspondence cases (random
+   configurations of up to 8 BBMD subnets, 5 ordinary nodes each, 6 foreign devices, full and
+   partial tables). *)
+Theorem C13_broadcast_once : forall c o n p, wf c -> In o (all_rcvs c) ->
+  let D := broadcast n c o p in
+  (forall d, In d D -> d = (d_who d, rcv_addr o, DBcast, p)) /\
+  NoDup (map d_addr D) /\
+  ~ In (rcv_addr o) (map d_addr D) /\
+  (full c -> forall a, In a (all_addrs c) -> a <> rcv_addr o -> In a (map d_addr D)).
+Proof. exact broadcast_once_any_size. Qed.
+Print Assumptions C13_broadcast_once.
+
+(* the same as a count *)
+Theorem C13_broadcast_count : forall c o n p a, wf c -> full c -> In o (all_rcvs c) -> In a (all_addrs c) ->
+  count_occ addr_eq_dec (map d_addr (broadcast n c o p)) a = if addr_eq_dec a (rcv_addr o) then 0%nat else 1%nat.
+Proof. exact broadcast_count_any_size. Qed.
+Print Assumptions C13_broadcast_count.
+
+(* partial distribution tables (ANY a_keep, any size; "_partial" = partial tables, the statement is
+   proved in full): no duplicates, no echo, true source *)
+Theorem C13_no_duplicates_no_echo_partial : forall c o n p, wf c -> In o (all_rcvs c) ->
+  let D := broadcast n c o p in
+  NoDup (map d_addr D) /\ ~ In (rcv_addr o) (map d_addr D) /\
+  (forall d, In d D -> d = (d_who d, rcv_addr o, DBcast, p)).
+Proof.
+  intros c o n p W I. destruct (broadcast_once_any_size c o n p W I) as [L [N [E _]]]. auto.
+Qed.
+Print Assumptions C13_no_duplicates_no_echo_partial.
+
+Theorem C13_wf_decidable : forall c, wf_b c = true -> wf c.
+Proof. exact wf_b_sound. Qed.
+Print Assumptions C13_wf_decidable.
+
+(* tie of the delivery-tree semantics to the network model, swept family *)
+Theorem C13_family_wf : forall c, In c family -> wf (abs_cfg c).
+Proof. exact family_wf. Qed.
+Print Assumptions C13_family_wf.
+Theorem C13_deliv_matches_cascade : forall c, In c family -> same_deliveries c = true.
+Proof. exact deliv_matches_cascade. Qed.
+Print Assumptions C13_deliv_matches_cascade.
+
+(* The cascade model itself (IpNet.v), PARTIAL: proved for the completely swept family of 774 well-formed
    configurations (1..3 subnets each with a BBMD and 0..2 ordinary nodes, every per-peer choice of
    /32 two-hop or /24 one-hop table entries, full tables, 0..2 foreign devices registered from a
    BBMD-less subnet) and every originating node: running the network model to quiescence hands the
    broadcast to every other node exactly once, as a broadcast, showing the originator's address,
    and never to the originator (bcast_ok, spelled out by C13_broadcast_once_spec).
-   MISSING for the full C13_broadcast_once: the statement for wf configurations of arbitrary
-   size (an induction over the subnet list of IpNet.cascade); beyond the family it is covered by
-   the simulation (direct check + correspondence), not by proof. *)
+   MISSING: the same statement about IpNet.cascade for configurations of arbitrary size; for all
+   sizes the statement is C13_broadcast_once above, about the delivery-tree semantics. *)
 Theorem C13_broadcast_once_partial : forall c w o,
   In c family -> cfg_world c = Ok w -> (o < length (w_nodes w))%nat -> bcast_ok w o = true.
 Proof. exact broadcast_once_family. Qed.
@@ -157,3 +215,18 @@ Proof. exact family_member. Qed.
 Example C13_renewal_example :
   exists f', foreign_renew 500 (mkForeign 0 (Some (mkA 167837954 47808)) (Some 30%Z) None None) = Ok f'.
 Proof. eexists. reflexivity. Qed.
+
+Example C13_any_size_example :
+  let c := mkAcfg
+    (map (fun k => mkSub (mkA (167772162 + 65536 * k) 47808) (if N.even k then 4294967295 else 4294967040)
+                         (mkA (167772415 + 65536 * k) 47808)
+                         (map (fun j => mkA (167772170 + 65536 * k + j) 47808) [0; 1; 2; 3; 4; 5; 6]))
+         [1; 2; 3; 4; 5; 6; 7; 8; 9; 10; 11; 12])
+    (map (fun j => (mkA (180879400 + j) 47808, mkA (167772162 + 65536 * (1 + j mod 12)) 47808)) [0; 1; 2; 3; 4; 5; 6; 7; 8; 9])
+    keep_all in
+  wf c /\ full c /\ length (all_rcvs c) = 106%nat /\
+  length (broadcast 0 c (RS (nth 3 (a_subs c) (mkSub (0,0) 0 (0,0) [])) (mkA (167772170 + 65536 * 4 + 2) 47808)) 5) = 105%nat.
+Proof.
+  cbv zeta. split; [apply wf_b_sound; vm_compute; reflexivity|]. split; [intros b p; reflexivity|].
+  split; vm_compute; reflexivity.
+Qed.
